@@ -32,6 +32,18 @@ theorem atomic_replace_safe_powerloss (tr : List Op) (path : String) (new : Byte
   intro s hs
   exact ((atomicTrace_safe hq (hfresh tmp rfl) hne htail).1 s hs).plReads
 
+/-- …so the next start loads a usable session: whatever deterministic loader (`session.Loader.Load`
+is a function of the file content) runs after a power loss sees what it would have seen for the
+previous or for the new file. -/
+theorem loader_sees_old_or_new {α : Type} (load : Option Bytes → α) (tr : List Op) (path : String)
+    (new : Bytes) (s0 : FS) (hq : Quiescent s0 path)
+    (hfresh : ∀ t, tmpOf tr = some t → s0.dir t = none) (h : isAtomicReplace tr path new = true) :
+    ∀ s ∈ crashStates tr s0, ∀ r ∈ plReads s path, load r = load (readCur s0 path) ∨ load r = load (some new) := by
+  intro s hs r hr
+  rcases atomic_replace_safe_powerloss tr path new s0 hq hfresh h s hs r hr with h1 | h1
+  · exact Or.inl (by rw [h1])
+  · exact Or.inr (by rw [h1])
+
 /-- A save that runs to completion has saved: `path` then reads the new content. -/
 theorem atomic_replace_completes (tr : List Op) (path : String) (new : Bytes) (s0 : FS)
     (hq : Quiescent s0 path) (hfresh : ∀ t, tmpOf tr = some t → s0.dir t = none)
